@@ -1,6 +1,6 @@
 """C13 - parsers reject bad input only with the documented format error.
 
-Proof: Props/C13.v (only_documented_<fmt> for ALL lists of lines, over abstract oracles typed by exception kinds; except
+Proof: Props/C13.v + Props/C13_<Fmt>.v (only_documented_<fmt> for ALL lists of lines, over abstract oracles typed by exception kinds; except
 clauses taken from the regenerated Gen/C13_ExcSpec.v; site layout compared with the layout the models were written for).
 Ties: (T) translate/c13_exc.py; (C) the extracted models run on every corruption with the oracles answered by the live
 primitives and compared with the real parser's outcome; declared oracle kinds and the exception hierarchy are tested
@@ -19,7 +19,9 @@ from vlib import core
 from vlib import c13_corrupt as C
 from vlib import c13_oracles as O
 
-TARGETS = ["Props/C13.vo"]
+PROPS = ["Props/C13", "Props/C13_Xyz", "Props/C13_Pdffit", "Props/C13_Discus", "Props/C13_Xcfg", "Props/C13_Pdb", "Props/C13_Cif",
+         "Props/C13_Examples"]
+TARGETS = [p + ".vo" for p in PROPS]
 MODEL_FORMATS = ["xyz", "rawxyz", "pdffit", "discus", "xcfg", "pdb"]
 
 # kinds each CIF oracle of Model/C13_Cif.v is declared to raise (hypotheses of C13_only_documented_cif_partial)
@@ -66,7 +68,7 @@ def build(ctx):
     with core.BuildLock():
         ok = ctx.regen("c13_exc", c13_exc.generate)
         if ok:
-            ctx.coq(TARGETS, theorems_in={"Props/C13"})
+            ctx.coq(TARGETS, theorems_in=set(PROPS))
         # the extracted models embed the except clauses of Gen/C13_ExcSpec.v: rebuild the driver when anything changed
         drv_ok = False
         try:
@@ -390,8 +392,8 @@ def run(ctx):
         "helper methods of a parser run only from parseLines of a fresh parser object (instance attributes initialised)",
         "'%d' % line-number formatting of the error messages does not raise; Structure.addNewAtom / placeInLattice / "
         "isanisotropic on finite-shape float arrays do not raise (tested for addNewAtom)",
-        "cif: PyCifRW and the block readers are oracles; the positive theorem is partial (scalar item values; "
-        "getSymOp raising only ValueError/IndexError/ZeroDivisionError) - the two excluded classes are refuted and listed as findings",
+        "cif: PyCifRW and the block readers are oracles; the positive theorem is partial (scalar item values) - the excluded "
+        "class (a list where one value is expected) is refuted and listed as a finding",
         "a parser returning None (cif text without _atom_site_label) is counted, not judged: Structure.read handles it explicitly",
         "memory/time exhaustion (e.g. auxiliary[99999999999]) is outside the property; runs are cut off after 20 s and counted",
     ]
